@@ -442,6 +442,60 @@ def eval_function(F, seed: int):
     return layout, tuple(np.array(o, dtype=float).tobytes() for o in outs)
 
 
+def symbol_keys(U: Universe, net, extra=None) -> dict:
+    """{hash of symbolic primitive: (element ref, variable, index)} for every variable currently
+    held by the elements of `net` (CasADi introspection: symvar + node hash)."""
+    import casadi as cs
+
+    keys = {}
+    for el in net.elements:
+        r = U.label(el)
+        for grp in ("states", "actions", "disturbances"):
+            for var, v in (getattr(el, grp) or {}).items():
+                if isinstance(v, (cs.SX, cs.MX)):
+                    for i, x in enumerate(cs.symvar(v)):
+                        keys.setdefault(x.__hash__(), (r, var, i))
+    for name, sym in (extra or {}).items():
+        for i, x in enumerate(cs.symvar(sym)):
+            keys.setdefault(x.__hash__(), ("param", name, i))
+    return keys
+
+
+def eval_function_keyed(F, keys: dict, seed: int):
+    """Evaluates a casadi.Function at a point defined per *variable* (element ref, variable name,
+    index), not per argument position, and returns the multiset of output values.  Two functions
+    that differ only in how they lay out their arguments and results compare equal: the layout
+    is no part of C12 / C13 / C19 (it is C04's subject)."""
+    import casadi as cs
+
+    ranges = {"rho": (5.0, 110.0), "v": (15.0, 120.0), "w": (0.0, 120.0), "r": (0.0, 1.0), "q": (100.0, 2200.0),
+              "d": (5.0, 3000.0), "v_ctrl": (30.0, 120.0), "T": (0.002, 0.004)}
+    is_sx = F.is_a("SXFunction")
+    ins = F.sx_in() if is_sx else F.mx_in()
+    args = []
+    for a in ins:
+        prim = cs.symvar(a)
+        vals = []
+        for x in prim:
+            key = keys.get(x.__hash__(), ("unknown", str(x), 0))
+            lo, hi = ranges.get(key[1], (1.0, 150.0))
+            n = x.numel()
+            g = np.random.default_rng(core.H("keyed", seed, key) % (2**63))
+            vals.append(g.uniform(lo, hi, size=(n, 1)))
+        if prim:
+            h = cs.Function("h", prim, [a])
+            out = h(*vals)
+            args.append(np.array(out, dtype=float))
+        else:
+            args.append(np.zeros((a.size1(), a.size2())))
+    outs = F(*args)
+    if not isinstance(outs, (list, tuple)):
+        outs = [outs]
+    flat = np.concatenate([np.array(o, dtype=float).ravel() for o in outs]) if outs else np.zeros(0)
+    nan = int(np.isnan(flat).sum())
+    return (int(flat.size), nan, np.sort(flat[~np.isnan(flat)]).tobytes())
+
+
 # ---- the line-event seam (T1 / Y3) ---------------------------------------------------------
 
 _PKG_DIR = None
